@@ -16,7 +16,8 @@ RULE = ("axis triples (start, step, count) drawn on sign/magnitude classes incl.
         "steps (NumPy route: any; SEG-Y route: via segyio) x sample intervals (all hard cases 1,7,333,999,1001,65535 + seeded "
         "sample; thorough: every interval 1..65535 x 6 start times) x start times incl. -32768, 32767: "
         "ilines/xlines/zslices/tracecount/structured and the emulator's ilines/xlines/samples vs the source; also after "
-        "crop, re-block and SEG-Y export")
+        "crop, re-block and SEG-Y export"
+        "; K: Model/Axes packI32/decodeAxis vs the stored origin/increment words and the reader's axes")
 
 
 def big_axis(rng, count):
